@@ -72,6 +72,7 @@ type Contract struct {
 	Functional   string   // "functional NAME": the result is a function NAME(args) of the arguments (slices: content and length)
 	NoFrame      bool     // "modifies anything": top-level actor closures, no frame obligations (such a function cannot be called from a function under contract)
 	SplitRet     bool     // prove every postcondition separately per return statement
+	ParamNames   []string // "params (a, b, c)": the names the contract uses for receiver + parameters, bound by position
 	Impl         bool     // "impl func": body-side contract of an opaque function (key has the suffix #impl)
 	HeapClosed   bool     // "heapclosed": add the axiom "every reference stored in the entry heap is below the entry watermark" (quantified)
 	DispatchOnly []string // "dispatchonly Cxx ...": target of interface dispatch only in these modes; elsewhere call sites must exclude it
@@ -140,7 +141,7 @@ var clauseKeywords = map[string]bool{
 	"func": true, "impl": true, "extern": true, "pure": true, "ghost": true, "props": true, "requires": true, "ensures": true,
 	"modifies": true, "loop": true, "invariant": true, "decreases": true, "nofatal": true, "overflow": true,
 	"let": true, "trusted": true, "returns": true, "fatal": true, "assume": true, "callback": true,
-	"lemma": true, "mode": true, "heapclosed": true, "dispatchonly": true, "sentinel": true, "iface": true, "share": true, "effectfree": true, "opaque": true, "end": true, "ghostdo": true, "ghostret": true, "atcall": true, "split": true, "safety": true, "splitreturns": true, "functional": true,
+	"lemma": true, "mode": true, "params": true, "heapclosed": true, "dispatchonly": true, "sentinel": true, "iface": true, "share": true, "effectfree": true, "opaque": true, "end": true, "ghostdo": true, "ghostret": true, "atcall": true, "split": true, "safety": true, "splitreturns": true, "functional": true,
 }
 
 var labelRe = regexp.MustCompile(`^(requires|ensures|invariant|assume)\[([^\]]*)\]\s*(.*)$`)
@@ -505,6 +506,17 @@ func (cs *Contracts) parseFile(p *Program, pkgPath, file, src string) error {
 		case "splitreturns":
 			if cur != nil {
 				cur.SplitRet = true
+			}
+		case "params":
+			if cur == nil {
+				return fail(rc, "params outside func")
+			}
+			t := strings.TrimSpace(rc.text)
+			t = strings.TrimSuffix(strings.TrimPrefix(t, "("), ")")
+			for _, n := range strings.Split(t, ",") {
+				if n = strings.TrimSpace(n); n != "" {
+					cur.ParamNames = append(cur.ParamNames, n)
+				}
 			}
 		case "heapclosed":
 			if cur == nil {
